@@ -385,6 +385,13 @@ func (m *model) edit(x string, n int, twoAuthors bool) (string, []xstate.Violati
 		if err != nil {
 			return "", nil, err
 		}
+		if m.w.PrivateKeys != nil {
+			// users with signing keys: whoever writes a pack in somebody's name needs that person's
+			// private key, otherwise git-bug writes an unsigned commit that every reader refuses
+			if _, kerr := o.SigningKey(m.w.PrivateKeys); kerr != nil {
+				return "", nil, kerr
+			}
+		}
 		authors[1] = o
 	}
 	for i := 0; i < n; i++ {
